@@ -161,7 +161,7 @@ def apply(ex, st, c, fi, bound, node):
     must_not = [z3.Not(w) for rc, w in zip(c.raises, whens) if rc.must]
     st_n = st
     for m in must_not:
-        st_n.assume(z3.simplify(m))
+        st_n.assume(m)
     if eng.quick_sat(st_n.path):
         post_fv = _havoc_modifies(ex, st_n, c, fv, bound, node, key)
         result = _fresh_result(ex, st_n, c, key)
